@@ -88,6 +88,10 @@ def run(ctx):
         kpar = bytes(b ^ 1 for b in k)
         cases.append(("generate_retail_mac", (k, kpar, rng.randbytes(11), 2, None)))
         cases.append(("generate_retail_mac", (k, k, rng.randbytes(11), 1, None)))
+        # key1 == key2 (algorithm 3 then equals algorithm 1 over the SAME padded message): every padding method, (un)aligned data
+        for padding in (1, 2, 3):
+            for n in (0, 3, 8, 11, 16):
+                cases.append(("generate_retail_mac", (k, bytes(k), rng.randbytes(n), padding, None)))
     for alg_aes in (False, True):
         for n in (0, 1, 8, 16, 24, 32, 33):
             for _ in range(2):
